@@ -413,15 +413,25 @@ class Run:
     pass
 
 
+def _strip(e, depth=0):
+    """drop traceback references of an exception (and of the exceptions chained to it)"""
+    if e is None or depth > 5:
+        return
+    e.__traceback__ = None
+    _strip(e.__context__, depth + 1)
+    _strip(e.__cause__, depth + 1)
+
+
 POKES = [0]
 
 
 def run_program(case, with_faults=True, with_writes=True):
     rs = case["robot"]
+    CTX.reset()  # drops what the previous case left behind before the native state is reset
+    CTX.setup_probe = {}
+    gc.collect()
     simenv.full_reset()
     purge_autonomous()
-    CTX.reset()
-    CTX.setup_probe = {}
     root = write_modes(rs)
     if root:
         sys.path.insert(0, root)
@@ -570,6 +580,13 @@ def run_program(case, with_faults=True, with_writes=True):
         if drv is not None:
             drv.robot = None
         robot_cls = None
+        # Captured exceptions keep their traceback -> frames -> the robot alive (through reference cycles even
+        # after this run object is gone); the robot would then be finalised at an arbitrary later moment,
+        # i.e. during another case.  Only the exception objects themselves are needed (identity, repr).
+        for _, _, e in list(CTX.fired) + list(getattr(run, "fired", [])):
+            _strip(e)
+        if drv is not None and drv.exc is not None:
+            _strip(drv.exc)
         gc.collect()
     return run
 
